@@ -231,7 +231,71 @@ fn span_space(ctx: &Ctx, label: &str, space: &str, lo: u64, hi_incl: u64, chunk:
     }
 }
 
+/// Self-test of the ORACLE (not of the library): the strict reader must flag a list of hand-made
+/// rule breaks applied to a valid emitted stream (checksums recomputed where needed). A rule break
+/// that passes silently would make this check vacuous for that rule: reported as inconclusive.
+fn oracle_selftest(ctx: &Ctx) {
+    use crate::oracle::refdec::{crc16, crc8, decode};
+    let mut missed: Vec<String> = vec![];
+    let mut tried = 0u64;
+    for s in [1u64, 2, 5] {
+        let sc = super::c16::small_stream(s);
+        let Some(base) = super::c16::base_of(&sc) else { continue };
+        let clean = decode(&base.bytes, Some(sc.cfg.block_size));
+        if clean.fatal.is_some() || !clean.violations.is_empty() {
+            continue; // judged by the search itself
+        }
+        let (fs, fe, hl) = base.frames[0];
+        let fix = |b: &mut Vec<u8>| {
+            b[fs + hl - 1] = crc8(&b[fs..fs + hl - 1]);
+            let c = crc16(&b[fs..fe - 2]);
+            b[fe - 2] = (c >> 8) as u8;
+            b[fe - 1] = c as u8;
+        };
+        let mut muts: Vec<(&str, Vec<u8>)> = vec![];
+        let mk = |f: &dyn Fn(&mut Vec<u8>)| {
+            let mut b = base.bytes.clone();
+            f(&mut b);
+            b
+        };
+        muts.push(("STREAMINFO min block size 15", mk(&|b| { b[8] = 0; b[9] = 15; })));
+        muts.push(("STREAMINFO min block size > max block size", mk(&|b| { b[8] = 0x7f; b[9] = 0xff; b[10] = 0; b[11] = 16; })));
+        muts.push(("STREAMINFO block sizes (16, 16) smaller than the frames", mk(&|b| { b[8] = 0; b[9] = 16; b[10] = 0; b[11] = 16; })));
+        muts.push(("STREAMINFO total samples + 1", mk(&|b| { b[25] = b[25].wrapping_add(1); })));
+        muts.push(("STREAMINFO channel count changed", mk(&|b| { b[20] ^= 0x02; })));
+        muts.push(("STREAMINFO bits per sample changed", mk(&|b| { b[21] ^= 0x10; })));
+        muts.push(("STREAMINFO sample rate changed", mk(&|b| { b[18] ^= 0x01; })));
+        muts.push(("last-metadata-block flag cleared", mk(&|b| { b[4] &= 0x7f; })));
+        muts.push(("metadata block type 127", mk(&|b| { b[4] = 0x80 | 127; })));
+        muts.push(("byte appended after the last frame", mk(&|b| b.push(0))));
+        muts.push(("frame header reserved bit set", mk(&|b| { b[fs + 3] |= 1; fix(b); })));
+        muts.push(("blocking strategy bit set", mk(&|b| { b[fs + 1] |= 1; fix(b); })));
+        muts.push(("reserved sync bit set", mk(&|b| { b[fs + 1] |= 2; fix(b); })));
+        muts.push(("sample size code 011", mk(&|b| { b[fs + 3] = (b[fs + 3] & 0xF1) | 0x06; fix(b); })));
+        muts.push(("sample rate code 1111", mk(&|b| { b[fs + 2] |= 0x0F; fix(b); })));
+        muts.push(("block size code 0000", mk(&|b| { b[fs + 2] &= 0x0F; fix(b); })));
+        muts.push(("frame number 1 instead of 0", mk(&|b| { b[fs + 4] = 1; fix(b); })));
+        muts.push(("subframe padding bit set", mk(&|b| { b[fs + hl] |= 0x80; fix(b); })));
+        muts.push(("subframe type code reserved (000010x)", mk(&|b| { b[fs + hl] = 0x04; fix(b); })));
+        muts.push(("CRC-8 wrong", mk(&|b| { b[fs + hl - 1] ^= 0x55; let c = crc16(&b[fs..fe - 2]); b[fe - 2] = (c >> 8) as u8; b[fe - 1] = c as u8; })));
+        muts.push(("CRC-16 wrong", mk(&|b| { b[fe - 1] ^= 0x01; })));
+        muts.push(("stream marker changed", mk(&|b| { b[3] = b'c'; })));
+        for (name, b) in muts {
+            tried += 1;
+            let tr = decode(&b, Some(sc.cfg.block_size));
+            if tr.fatal.is_none() && tr.violations.is_empty() {
+                missed.push(format!("stream {s}: {name}"));
+            }
+        }
+    }
+    ctx.bump("oracle-selftest:rule-breaks-flagged", tried - missed.len() as u64);
+    if !missed.is_empty() || tried == 0 {
+        ctx.inconclusive.lock().unwrap().push(format!("oracle self-test: the strict reader did not flag {missed:?} (tried {tried})"));
+    }
+}
+
 pub fn run(ctx: &Ctx) {
+    oracle_selftest(ctx);
     ctx.rule(
         "(a) generated streams: strict RFC 9639 reader (harness' own) must report zero rule violations; non-trivial = >= 2 frames and >= 1 predictive subframe; \
          (b) finite header code spaces enumerated through encode_fixed_size_frame / FrameHeader::new: every block length 1..=32767, every sample rate 1..=96000 (both exhaustive), frame numbers: quick = all values within +-64 of each UTF-8 length boundary plus a stratified 2^20 sample, thorough = all 2^31; every enumerated value is distinct and counts as non-trivial",
